@@ -80,3 +80,80 @@ Eval vm_compute in tr repl t1 (TS 100 []).
 Example metadata_carried :
   fst (tr repl t1 (TS 100 [])) = Obj 100 10 [Leaf 2; Obj 50 12 [] (Some 77)] (Some 66).
 Proof. vm_compute. reflexivity. Qed.
+
+(* ---- C16_identity: with the identity callback the result has the same
+   shape, classes and metadata as the input (it may be a rebuilt copy) ---- *)
+Inductive shape := SLeaf (id : nat) | SLst (l : list shape) | SObj (cls : nat) (fs : list shape) (meta : option nat).
+Fixpoint shape_of (n : node) : shape :=
+  match n with
+  | Leaf i => SLeaf i
+  | Lst _ l => SLst ((fix go (l : list node) := match l with [] => [] | x :: l' => shape_of x :: go l' end) l)
+  | Obj _ c fs m => SObj c ((fix go (l : list node) := match l with [] => [] | x :: l' => shape_of x :: go l' end) fs) m
+  end.
+Fixpoint shapes (l : list node) : list shape := match l with [] => [] | x :: l' => shape_of x :: shapes l' end.
+
+Fixpoint nsize (n : node) : nat :=
+  match n with
+  | Leaf _ => 1
+  | Lst _ l | Obj _ _ l _ => S ((fix sz (l : list node) := match l with [] => 0 | x :: l' => nsize x + sz l' end) l)
+  end.
+Fixpoint lsize (l : list node) : nat := match l with [] => 0 | x :: l' => nsize x + lsize l' end.
+
+(* the two nested loops of tr, as top-level functions (convertible with the nested ones) *)
+Section TL.
+Variable f : node -> node.
+Fixpoint tr_list (l : list node) (s : tst) : list node * tst :=
+  match l with
+  | [] => ([], s)
+  | x :: l' => let '(x', s1) := tr f x s in let '(r, s2) := tr_list l' s1 in (x' :: r, s2)
+  end.
+Fixpoint tr_fields (l : list node) (s : tst) : list node * bool * tst :=
+  match l with
+  | [] => ([], false, s)
+  | x :: l' => let '(x', s1) := tr f x s in
+               let '(r, ch, s2) := tr_fields l' s1 in
+               (x' :: r, negb (same x x') || ch, s2)
+  end.
+End TL.
+
+Definition idf (n : node) := n.
+
+Lemma carry_meta_id n : carry_meta n (idf n) = n.
+Proof. unfold carry_meta, idf, same. rewrite Nat.eqb_refl. reflexivity. Qed.
+
+Lemma identity_shape_aux : forall k n s, nsize n <= k -> shape_of (fst (tr idf n s)) = shape_of n.
+Proof.
+  induction k as [|k IH]; intros n s Hk; [destruct n; cbn in Hk; lia|].
+  assert (HL : forall l s, lsize l <= k -> shapes (fst (tr_list idf l s)) = shapes l).
+  { induction l as [|x l IHl]; intros s0 Hl; [reflexivity|]. cbn [tr_list lsize] in *.
+    pose proof (IH x s0 ltac:(lia)) as Hx. destruct (tr idf x s0) as [x' s1]. cbn [fst] in Hx.
+    pose proof (IHl s1 ltac:(lia)) as Hr. destruct (tr_list idf l s1) as [r s2]. cbn [fst] in *.
+    cbn [shapes]. rewrite Hx, Hr. reflexivity. }
+  assert (HF : forall l s, lsize l <= k -> shapes (fst (fst (tr_fields idf l s))) = shapes l).
+  { induction l as [|x l IHl]; intros s0 Hl; [reflexivity|]. cbn [tr_fields lsize] in *.
+    pose proof (IH x s0 ltac:(lia)) as Hx. destruct (tr idf x s0) as [x' s1]. cbn [fst] in Hx.
+    pose proof (IHl s1 ltac:(lia)) as Hr. destruct (tr_fields idf l s1) as [[r ch] s2]. cbn [fst] in *.
+    cbn [shapes]. rewrite Hx, Hr. reflexivity. }
+  destruct n as [i|i l|i c fs m].
+  - reflexivity.
+  - change (nsize (Lst i l)) with (S (lsize l)) in Hk.
+    change (tr idf (Lst i l) s) with
+      (let '(l', s') := tr_list idf l s in (Lst (next s') l', TS (S (next s')) (log s'))).
+    pose proof (HL l s ltac:(lia)) as H. destruct (tr_list idf l s) as [l' s']. cbn [fst] in *.
+    change (shape_of (Lst (next s') l')) with (SLst (shapes l')).
+    change (shape_of (Lst i l)) with (SLst (shapes l)). rewrite H. reflexivity.
+  - change (nsize (Obj i c fs m)) with (S (lsize fs)) in Hk.
+    change (tr idf (Obj i c fs m) s) with
+      (let '(fs', changed, s') := tr_fields idf fs s in
+       let '(n1, s1) := if changed then (Obj (next s') c fs' m, TS (S (next s')) (log s')) else (Obj i c fs m, s') in
+       (carry_meta n1 (idf n1), TS (next s1) (log s1 ++ [nid n1]))).
+    pose proof (HF fs s ltac:(lia)) as H. destruct (tr_fields idf fs s) as [[fs' changed] s']. cbn [fst] in *.
+    destruct changed; cbn [fst]; rewrite carry_meta_id.
+    + change (shape_of (Obj (next s') c fs' m)) with (SObj c (shapes fs') m).
+      change (shape_of (Obj i c fs m)) with (SObj c (shapes fs) m). rewrite H. reflexivity.
+    + reflexivity.
+Qed.
+
+Theorem identity_shape n s : shape_of (fst (tr idf n s)) = shape_of n.
+Proof. apply (identity_shape_aux (nsize n)). lia. Qed.
+Print Assumptions identity_shape.
